@@ -159,6 +159,37 @@ Theorem C03_str_derivative_quotient :
 Proof. exact (str_derivative_quotient merge_ok_holds inclusion_sound_holds). Qed.
 Print Assumptions C03_str_derivative_quotient.
 
+(* ---------------------------------------------------------------- no derivative panics (D11 repaired)
+
+   Before the repair of D11 a derivative could panic inside ReManager::concat (u32 overflow when two
+   loops were merged); the repaired concat / mk_loop are total (C01_concat_total, C01_mk_loop_total),
+   hence every derivative call with valid arguments returns, for every term, from every manager
+   satisfying the invariant *)
+Theorem C03_cached_deriv_total : forall e m cid,
+  dwf m -> owned m e -> pvalid (rcls e) cid = true -> exists m' d, cached_deriv e m cid = Some (m', d).
+Proof. exact cached_deriv_total. Qed.
+Print Assumptions C03_cached_deriv_total.
+
+Theorem C03_char_derivative_total : forall m e c,
+  dwf m -> owned m e -> good c -> exists m' d, char_derivative m e c = Some (m', d).
+Proof. exact char_derivative_total. Qed.
+Print Assumptions C03_char_derivative_total.
+
+Theorem C03_str_derivative_total : forall w m e,
+  dwf m -> owned m e -> goodw w -> exists m' d, str_derivative m e w = Some (m', d).
+Proof. exact str_derivative_total. Qed.
+Print Assumptions C03_str_derivative_total.
+
+Theorem C03_str_in_re_total : forall m w e,
+  dwf m -> owned m e -> goodw w -> exists m' b, str_in_re m w e = Some (m', b).
+Proof. exact str_in_re_total. Qed.
+Print Assumptions C03_str_in_re_total.
+
+Theorem C03_class_derivative_total : forall m e cid,
+  dwf m -> owned m e -> exists m' res, class_derivative m e cid = Some (m', res).
+Proof. exact class_derivative_total. Qed.
+Print Assumptions C03_class_derivative_total.
+
 (* ---------------------------------------------------------------- membership (C01) *)
 
 Theorem C03_str_in_re :
